@@ -115,6 +115,22 @@ Theorem C02_cnf_exact : forall F (K : fops F), flaws K -> forall mus (m : msp) i
 Proof. exact @cnf_accepts_iff_closed. Qed.
 Print Assumptions C02_cnf_exact.
 
+(* threshold-gate trees.  FULL STATEMENT (not proved):
+     forall tree m ids, check_tree tree = true -> induced_gate K fromN tree = Some m ->
+       (nodes 1..fan-in distinct and non-zero in the field) -> (forall id, In id ids -> In id (msp_lab m)) ->
+       accepts K m ids = tree_eval ids tree.
+   Proved part: a single threshold gate over distinct leaves (AND, OR, t-of-n), i.e. trees of depth 1;
+   deeper trees are covered by the exhaustive correspondence (all trees on <= 4 / 6 holders x all subsets) *)
+Theorem C02_gate_exact_partial : forall F (K : fops F), flaws K -> forall (fromN : N -> F) t leaves (m : msp) ids,
+  induced_gate K fromN (Gate t (map Leaf leaves)) = Some m ->
+  NoDup leaves -> (0 < t)%nat -> leaves <> [] ->
+  (forall i j, (i < length leaves)%nat -> (j < length leaves)%nat -> gate_node K fromN i = gate_node K fromN j -> i = j) ->
+  (forall i, (i < length leaves)%nat -> gate_node K fromN i <> f0 K) ->
+  (forall id, In id ids -> In id leaves) ->
+  accepts K m ids = tree_eval ids (Gate t (map Leaf leaves)).
+Proof. exact @gate_flat_exact. Qed.
+Print Assumptions C02_gate_exact_partial.
+
 (* ---- dedicated schemes ------------------------------------------------------------------------------------ *)
 
 (* Shamir: any >= t distinct holders reconstruct the constant term (nodes distinct in the field) *)
